@@ -2,7 +2,7 @@
 import ast
 import math
 
-from ..astutil import dotted, effective, method_call
+from ..astutil import dotted, effective, expand_expression_methods, method_call
 from ..cfg import cfg_of, fact_key, norm, walk_own
 from ..consteval import Scope, fold, fold_in
 from ..mutate import B, M
@@ -134,7 +134,7 @@ def check(ctx):
     rets = [norm(s.value) for s in walk_own(frv.node) if isinstance(s, ast.Return)]
     ctx.inst('R2', frv, 'rotvec->rotation-matrix', rets == ['Pose(Rotation.from_rotvec(%s).as_matrix(), %s)' % (frv.params[1], frv.params[2])], 'from_rot_vec builds the matrix with scipy Rotation (proper rotation); returns %s' % rets)
     rtp = P.method('rotate_translate_pose')
-    st = {norm(s.targets[0]): norm(s.value) for s in walk_own(rtp.node) if isinstance(s, ast.Assign)}
+    st = {norm(s.targets[0]): norm(expand_expression_methods(P, s.value)) for s in walk_own(rtp.node) if isinstance(s, ast.Assign)}     # one-line methods of Pose read through
     pz = rtp.params[1]
     ctx.inst('R2', rtp, 'compose-translation', st.get('t') == 'np.dot(self.rot_matrix, %s.translation) + self.translation' % pz, 'composition: t = R.t\' + t; found %s' % st.get('t'))
     ctx.inst('R2', rtp, 'compose-rotation', st.get('R') == 'np.dot(self.rot_matrix, %s.rot_matrix)' % pz, 'composition: R = R.R\'; found %s' % st.get('R'))
